@@ -148,17 +148,17 @@ func PShort(name string, n *Node) *Prop { return &Prop{Key: name, Shortcut: true
 
 func (n *Node) With(rs ...*Rule) *Node { n.Rules = append(n.Rules, rs...); return n }
 
-func RBool(name string, b bool) *Rule   { return &Rule{Name: name, Bool: b} }
-func RNum(name, text string) *Rule      { return &Rule{Name: name, Num: text} }
-func RInt(name string, v int) *Rule     { return &Rule{Name: name, Int: v} }
-func RStr(name, s string) *Rule         { return &Rule{Name: name, Str: s, IsStr: true} }
-func REnum(values ...string) *Rule      { return &Rule{Name: "enum", List: values} }
-func REnumRef(name string) *Rule        { return &Rule{Name: "enum", Str: name} }
-func RAllOf(names ...string) *Rule      { return &Rule{Name: "allOf", List: names} }
-func ROr(items ...OrItem) *Rule         { return &Rule{Name: "or", Or: items} }
-func OrName(name string) OrItem         { return OrItem{Name: name} }
-func OrSet(rules ...*Rule) OrItem       { return OrItem{Rules: rules} }
-func RRaw(name, raw string) *Rule       { return &Rule{Name: name, Raw: raw} }
+func RBool(name string, b bool) *Rule { return &Rule{Name: name, Bool: b} }
+func RNum(name, text string) *Rule    { return &Rule{Name: name, Num: text} }
+func RInt(name string, v int) *Rule   { return &Rule{Name: name, Int: v} }
+func RStr(name, s string) *Rule       { return &Rule{Name: name, Str: s, IsStr: true} }
+func REnum(values ...string) *Rule    { return &Rule{Name: "enum", List: values} }
+func REnumRef(name string) *Rule      { return &Rule{Name: "enum", Str: name} }
+func RAllOf(names ...string) *Rule    { return &Rule{Name: "allOf", List: names} }
+func ROr(items ...OrItem) *Rule       { return &Rule{Name: "or", Or: items} }
+func OrName(name string) OrItem       { return OrItem{Name: name} }
+func OrSet(rules ...*Rule) OrItem     { return OrItem{Rules: rules} }
+func RRaw(name, raw string) *Rule     { return &Rule{Name: name, Raw: raw} }
 
 // Quote renders a decoded string as a JSON string literal using the shortest standard escapes.
 func Quote(s string) string {
